@@ -44,10 +44,11 @@ def scratch_copy(dst, repo=REPO):
                            repo.rstrip('/') + '/', dst.rstrip('/') + '/'])
 
 
-def get_mir(repo=REPO, features_default=True, verbose=True):
-    """Returns (mir_text, info dict)."""
+def get_mir(repo=REPO, features_default=True, verbose=True, debug_assertions=False):
+    """Returns (mir_text, info dict).  debug_assertions=True dumps the dev profile as `cargo build` / `cargo test` compile it
+    (debug_assert! bodies present); the default is the same code with debug assertions compiled out, as in a release build."""
     os.makedirs(CACHE, exist_ok=True)
-    key = source_hash(repo, b'default' if features_default else b'nodefault')
+    key = source_hash(repo, (b'default' if features_default else b'nodefault') + (b'+dbgassert' if debug_assertions else b''))
     path = os.path.join(CACHE, f'mir-{key}.txt')
     info = {'source_hash': key, 'cached': False, 'rustc_s': 0.0}
     lock = open(os.path.join(CACHE, 'mir.lock'), 'w')
@@ -64,7 +65,7 @@ def get_mir(repo=REPO, features_default=True, verbose=True):
                '--target-dir', os.path.join(CACHE, 'mir-target')]
         if not features_default:
             cmd.append('--no-default-features')
-        cmd += ['--'] + NIGHTLY_FLAGS
+        cmd += ['--'] + (NIGHTLY_FLAGS if not debug_assertions else ['-Zunpretty=mir', '-C', 'debug-assertions=on'])
         # touch lib.rs so that cargo re-runs rustc (otherwise stdout is empty)
         os.utime(os.path.join(scratch, 'src', 'lib.rs'))
         p = subprocess.run(cmd, cwd=scratch, env=env, stdout=subprocess.PIPE, stderr=subprocess.PIPE, text=True)
@@ -79,7 +80,7 @@ def get_mir(repo=REPO, features_default=True, verbose=True):
         # keep the cache small: drop older dumps
         dumps = sorted((f for f in os.listdir(CACHE) if f.startswith('mir-') and f.endswith('.txt')),
                        key=lambda f: os.path.getmtime(os.path.join(CACHE, f)))
-        for f in dumps[:-6]:
+        for f in dumps[:-8]:
             os.remove(os.path.join(CACHE, f))
         if scratch != os.path.join(CACHE, 'mir-src'):
             shutil.rmtree(scratch, ignore_errors=True)
